@@ -68,7 +68,9 @@ def compute (repo, module):
         m = {}
         for k, v in zip(val.keys, val.values):
           try: m[ast.literal_eval(k)] = ast.literal_eval(v)
-          except Exception: pass
+          except Exception:
+            try: m[ast.literal_eval(k)] = _arith(v)
+            except Exception: pass
         maps[name[:-8]] = m
     for dn, kind, name, val, c, call in registrations(repo, module):
       if name is not None and val is not None:
@@ -106,3 +108,13 @@ def compute (repo, module):
           d[vals[0]] = ('nxm', vals[1], vals[2])
     d['__nxm_rows__'] = rows
   return d
+
+def _arith (e):
+  """integer arithmetic on literals (1 << 21, (1<<6)-1 ...)"""
+  if isinstance(e, ast.Constant) and isinstance(e.value, int): return e.value
+  if isinstance(e, ast.BinOp):
+    a = _arith(e.left); b = _arith(e.right)
+    return {ast.LShift: lambda: a << b, ast.RShift: lambda: a >> b, ast.BitOr: lambda: a | b, ast.BitAnd: lambda: a & b,
+            ast.Add: lambda: a + b, ast.Sub: lambda: a - b, ast.Mult: lambda: a * b}[type(e.op)]()
+  if isinstance(e, ast.UnaryOp) and isinstance(e.op, ast.USub): return -_arith(e.operand)
+  raise ValueError(e)
